@@ -230,6 +230,41 @@ fn run_scenario(sc: &Scenario<'_>, rep: &mut Report) {
                 check!(out == SignOut::Ok, "page_flip_failed", "load_next_page returned {}", out.show());
             }
         }
+        // 3b. a second controller object for the same sign takes a turn (it trusts the sign or configures it anew, and
+        //     sends other pages); then the first controller sends ITS last list once more: the sign holds that list again
+        if rng.chance(1, 3) {
+            let last: Vec<Page<'static>> = {
+                let b = bus.borrow();
+                b.sign(pos).pages().iter().map(|p| Page::from_bytes(p.width(), p.height(), p.as_bytes().to_vec()).expect("a stored page")).collect()
+            };
+            // make sure the first controller's own last call was a send of exactly `last`
+            let out = ctl::run_op(&sign, &Op::SendPages, &last);
+            steps.push(format!("send_pages({}) again -> {}", last.len(), out.show()));
+            check!(out == SignOut::OkStyle { automatic: sc.auto }, "send_pages_result", "send_pages returned {}", out.show());
+            let other = ctl::mk_sign(bus.clone(), sc.addr, sc.ty);
+            let entry = if rng.bool() { Op::ConfigureIfNeeded } else { Op::Configure };
+            let out = ctl::run_op(&other, &entry, &[]);
+            steps.push(format!("second controller: {} -> {}", entry.name(), out.show()));
+            let n_theirs = 1 + rng.usize(2);
+            let theirs = mk_pages(sc.ty, &mut rng, n_theirs);
+            let out = ctl::run_op(&other, &Op::SendPages, &theirs);
+            steps.push(format!("second controller: send_pages({}) -> {}", theirs.len(), out.show()));
+            check!(out == SignOut::OkStyle { automatic: sc.auto }, "send_pages_result", "the second controller's send_pages returned {}", out.show());
+            if let Err(e) = pages_equal(bus.borrow().sign(pos).pages(), &theirs) {
+                fails.push(("pages_not_bit_exact", format!("after the second controller's send: {}", e)));
+            }
+            drop(other);
+            let out = ctl::run_op(&sign, &Op::SendPages, &last);
+            steps.push(format!("first controller: send_pages({}) (the list it sent before) -> {}", last.len(), out.show()));
+            check!(out == SignOut::OkStyle { automatic: sc.auto }, "send_pages_result", "send_pages returned {}", out.show());
+            if let Err(e) = pages_equal(bus.borrow().sign(pos).pages(), &last) {
+                fails.push(("pages_not_bit_exact", format!("after the first controller re-sent the list it had sent before (another controller had sent other pages in between): {}", e)));
+            }
+            rep.count("two_controllers_taking_turns");
+            if !fails.is_empty() {
+                break 'run;
+            }
+        }
         // 4. shut down
         let out = ctl::run_op(&sign, &Op::ShutDown, &[]);
         steps.push(format!("shut_down -> {}", out.show()));
@@ -394,6 +429,7 @@ pub fn run(ctx: &Ctx) -> Outcome {
     let cells = report.set_len("prior_state_x_type");
     let floors = vec![
         floor("all jobs (11 types x 2 styles x {explored, abandoned} + 11 long lists)", report.get("jobs_done") == 55, report.get("jobs_done")),
+        floor("two controller objects for one sign taking turns", report.get("two_controllers_taking_turns") > 1000, report.get("two_controllers_taking_turns")),
         floor("other signs on the bus left in the middle of a transfer", report.get("bystanders_left_mid_transfer") > 1000, report.get("bystanders_left_mid_transfer")),
         floor("page lists below and above 65536 chunks for every type", report.get("long_page_lists") == 22 && report.maxs.get("most_chunks_in_one_transfer").copied().unwrap_or(0.0) > 65_536.0, report.get("long_page_lists")),
         floor("the implementation's equality separates sign states whose futures differ (the explorer's visited set relies on it)", vsx::equality_merges_states_with_different_futures() == 0, vsx::equality_merges_states_with_different_futures()),
